@@ -179,6 +179,44 @@ func runStopRace(t *testing.T, d, k int) ([]Ev, bool, string) {
 	})
 }
 
+// runResetRace: like runStopRace, but Reset is called at a firing instant (the timer's callback is already on its way):
+// after the Reset only the new period counts - a tick of the old timer must not slip in.
+func runResetRace(t *testing.T, d, k, d2 int) ([]Ev, bool, string) {
+	return bubble(t, func(r *Run) {
+		tk := xtime.NewJitterTicker(time.Duration(d)*time.Millisecond, 0)
+		r.emit(Ev{"ev": "new", "d": d, "j": 0, "panic": 0})
+		drain := func() {
+			for {
+				select {
+				case ts := <-tk.C:
+					r.emit(Ev{"ev": "tick", "ts": ts.Sub(r.t0).Milliseconds()})
+				default:
+					return
+				}
+			}
+		}
+		for i := 1; i < k; i++ {
+			time.Sleep(time.Duration(d) * time.Millisecond)
+			synctest_wait()
+			drain()
+		}
+		time.Sleep(time.Duration(d) * time.Millisecond)
+		tk.Reset(time.Duration(d2)*time.Millisecond, 0)
+		r.emit(Ev{"ev": "jreset", "d": d2, "j": 0, "panic": 0})
+		synctest_wait()
+		drain()
+		for i := 0; i < 4*d2; i++ {
+			time.Sleep(time.Millisecond)
+			synctest_wait()
+			drain()
+		}
+		tk.Stop()
+		r.emit(Ev{"ev": "stop"})
+		synctest_wait()
+		drain()
+	})
+}
+
 func TestXTime(t *testing.T) {
 	rng := seededRand()
 	w := newTraceWriter(envStr("VH_OUT", "/tmp/xtime.ndjson"))
@@ -215,6 +253,10 @@ func TestXTime(t *testing.T) {
 		d := []int{2, 5, 10}[i%3]
 		k := 1 + i%3 // stop at the k-th firing instant
 		put(runStopRace(t, d, k))
+	}
+	for i := 0; i < envInt("VH_STOPRACE", 200); i++ {
+		d := []int{2, 5, 10}[i%3]
+		put(runResetRace(t, d, 1+i%3, []int{3, 7, 10}[(i/3)%3]))
 	}
 	// JitterTicker: (d, jitter) incl. jitter = 0, Reset and Stop at every phase relative to a firing timer
 	pairs := [][2]int{{2, 0}, {2, 1}, {3, 2}, {10, 0}, {10, 3}, {10, 9}, {50, 25}}
